@@ -66,3 +66,70 @@ Print Assumptions C05_src_trigger_downtime.
 Example C05_src_nonvacuous : src_downtime_can_be_triggered_recognised = true -> src_downtime_can_be_triggered 15 false 10 20 0 5 = true /\ src_downtime_can_be_triggered 21 false 10 20 0 5 = false /\ src_downtime_is_in_effect 15 false 10 20 12 5 = true.
 Proof. intro H; xl_rec H. all: repeat split; vm_compute; reflexivity. Qed.
 
+
+(* ---------------------------------------------------------------------------------------------------------------------
+   Round 2 (notes/XLATE.md section 8): Downtime::Start's trigger decisions, the part of RemoveDowntime before the deletion,
+   one iteration of the two timer handlers, as translated from /repo on this run (coq/Facts/Facts_fn_dt.v).
+   xs_level = one level of the model's trigger_dt (round 1); rreason is encoded by xr_num (enum DowntimeRemovalReason). *)
+From Icv Require Import Facts.Facts_fn_dt Src.SrcDt.
+
+(* Start: a fixed downtime is announced and triggered at max(start, entry) iff it can be triggered; a flexible one is triggered at
+   max(start, entry, last state change) iff the checkable has a problem - the decisions and instants of do_dt_add *)
+Theorem C05_src_start_trigger : src_downtime_start_trigger_recognised = true -> src_downtime_trigger_downtime_recognised = true ->
+  src_downtime_can_be_triggered_recognised = true ->
+  forall now d problem lsc ex,
+    src_downtime_start_trigger now (d_fixed d) (d_start d) (d_end d) (d_trigger d) (d_duration d) (d_entry d) problem lsc (d_triggers d) ex
+    = if d_fixed d
+      then (if dt_can_be_triggered now d
+            then (let t := Z.max (d_start d) (d_entry d) in (fst (xs_level now d t ex), [XsStarted; XsTrigger t (snd (xs_level now d t ex))]))
+            else (d_trigger d, []))
+      else (if problem
+            then (let t := Z.max (Z.max (d_start d) (d_entry d)) lsc in (fst (xs_level now d t ex), [XsTrigger t (snd (xs_level now d t ex))]))
+            else (d_trigger d, [])).
+Proof. exact src_downtime_start_trigger_eq. Qed.
+Print Assumptions C05_src_start_trigger.
+
+(* RemoveDowntime: silent return for an unknown / non-API downtime, exception for an owned downtime removed by a user (before any
+   effect), otherwise the children are removed first (iff includeChildren) and the removal info is set (unless expired) *)
+Theorem C05_src_remove_pre : src_downtime_remove_pre_recognised = true ->
+  forall found is_api owned ic r kids,
+    src_downtime_remove_pre found is_api owned ic (xr_num r) kids
+    = if negb found || negb is_api then (true, [])
+      else if owned && match r with RByUser => true | _ => false end then (true, [XsThrow])
+      else (false, (if ic then map XsRemoveChild kids else []) ++ (match r with RExpired => [] | _ => [XsRemovalInfo] end)).
+Proof. exact src_downtime_remove_pre_eq. Qed.
+Print Assumptions C05_src_remove_pre.
+
+Theorem C05_src_remove_model_refuses : forall fuel now paused id ch r ds d,
+  find_dt id ds = Some d -> (d_owned d && match r with RByUser => true | _ => false end) = true ->
+  remove_dt (S fuel) now paused id ch r ds = (ds, [], false).
+Proof. exact xr_remove_dt_refuses. Qed.
+Print Assumptions C05_src_remove_model_refuses.
+
+(* the start timer announces and triggers an active fixed downtime that can be triggered, at max(start, entry) (do_dt_start_timer) *)
+Theorem C05_src_start_timer_iter : src_downtime_start_timer_iter_recognised = true -> src_downtime_can_be_triggered_recognised = true ->
+  forall now d active,
+    src_downtime_start_timer_iter now (d_fixed d) (d_start d) (d_end d) (d_trigger d) (d_duration d) (d_entry d) active
+    = if active && (dt_can_be_triggered now d && d_fixed d) then [XsStarted; XsTrigger (Z.max (d_start d) (d_entry d)) []] else [].
+Proof. exact src_downtime_start_timer_iter_eq. Qed.
+Print Assumptions C05_src_start_timer_iter.
+
+Theorem C05_src_orphaned_timer_iter : src_downtime_orphaned_timer_iter_recognised = true ->
+  forall name active valid,
+    src_downtime_orphaned_timer_iter name active valid = if active && negb valid then [XsRemove name false (xr_num RByOwner)] else [].
+Proof. exact src_downtime_orphaned_timer_iter_eq. Qed.
+Print Assumptions C05_src_orphaned_timer_iter.
+
+(* TriggerDowntime WITH its recursion into chained downtimes: xs_run (Src/SrcDt.v) closes the recursion of the translated
+   one-call function over the model's downtime store - the child call runs the same translated function on the child's attributes,
+   on fuel - and is the model's trigger_dt, for every store, fuel and non-zero instant *)
+Theorem C05_src_trigger_recursion : src_downtime_trigger_downtime_recognised = true ->
+  forall fuel now paused id t ds, t <> 0 -> xs_run fuel now paused id t ds = trigger_dt fuel now paused id t ds.
+Proof. exact src_trigger_downtime_recursion. Qed.
+Print Assumptions C05_src_trigger_recursion.
+
+Example C05_src_round2_nonvacuous : src_downtime_remove_pre_recognised = true -> src_downtime_start_timer_iter_recognised = true ->
+  src_downtime_remove_pre true true true true 1 [7] = (true, [XsThrow]) /\
+  src_downtime_remove_pre true true true true 2 [7] = (false, [XsRemoveChild 7; XsRemovalInfo]) /\
+  src_downtime_start_timer_iter 100 true 90 200 0 0 95 true = [XsStarted; XsTrigger 95 []].
+Proof. intros H1 H2; xl_rec H1; xl_rec H2. all: repeat split; vm_compute; reflexivity. Qed.
